@@ -305,6 +305,9 @@ const EXOTIC_TYPES: &[&str] = &[
     "HashMap<Währung, f64>", "(Schlüssel, u8)", "Result<設定, Größe>", "BTreeMap<Ünit, Vec<Ünit>>",
     "Cow<str>", "Cow<'static, [u8]>", "Cow<>", "Box<>", "Arc<>", "Rc<str>", "Box<str>", "Arc<Mutex<>>", "Cow<'a>", "std::borrow::Cow<str>",
     "HashSet<>", "Vec<>>", "BTreeMap<String>", "Result<>", "HashMap<,>", "Option< String >", "Vec <u8>", "Result<String , >",
+    // the framework's own generic types without / with odd arguments (`Channel` has a defaulted parameter)
+    "Channel<>", "tauri::ipc::Channel<>", "Channel", "Channel<'a>", "Channel<u8, u8>", "State<>", "tauri::State<'_>", "Window<>", "AppHandle<>", "Channel<()>",
+    "Channel<(u64, u64)>", "Channel<[u8; 4]>", "Channel<&[u8]>", "std::option::Option<String>", "core::option::Option<u8>", "::std::option::Option<Vec<u8>>",
 ];
 
 fn exotic_item(rng: &mut Rng, k: usize) -> String {
